@@ -330,6 +330,43 @@ func jsonSlashURune(cs [4]byte) (rr uint32) {
 	return
 }
 
+// jsonIsNumberLiteral reports whether bs is a number of the JSON grammar:
+// -?(0|[1-9][0-9]*)(\.[0-9]+)?([eE][+-]?[0-9]+)?
+func jsonIsNumberLiteral(bs []byte) bool {
+	i, n := 0, len(bs)
+	digits := func() (k int) {
+		for i < n && bs[i] >= '0' && bs[i] <= '9' {
+			i++
+			k++
+		}
+		return
+	}
+	if i < n && bs[i] == '-' {
+		i++
+	}
+	if i < n && bs[i] == '0' {
+		i++
+	} else if digits() == 0 {
+		return false
+	}
+	if i < n && bs[i] == '.' {
+		i++
+		if digits() == 0 {
+			return false
+		}
+	}
+	if i < n && (bs[i] == 'e' || bs[i] == 'E') {
+		i++
+		if i < n && (bs[i] == '+' || bs[i] == '-') {
+			i++
+		}
+		if digits() == 0 {
+			return false
+		}
+	}
+	return i == n
+}
+
 func jsonNakedNum(z *fauxUnion, bs []byte, preferFloat, signedInt bool) (err error) {
 	// Note: jsonNakedNum is NEVER called with a zero-length []byte
 	if preferFloat {
